@@ -34,7 +34,9 @@ GATES = {"internal/dmap/eviction.go": ["-skip", "evictKeys"],
          "internal/dmap/delete.go": ["-point", "deleteKey", "Lock", "del.loaded",
                                      "-point", "deleteOnCluster", "Delete", "del.others-deleted"],
          "internal/dmap/compaction.go": ["-point", "callCompactionOnFragment", "Lock", "compact.fragment"],
-         "internal/dmap/atomic.go": ["-point", "atomicIncrDecr", "put", "atomic.read",
+         "internal/dmap/atomic.go": ["-point", "atomicIncrDecr", "Lock", "atomic.env",
+                                     "-point", "getPut", "Lock", "atomic.env",
+                                     "-point", "atomicIncrDecr", "put", "atomic.read",
                                      "-point", "getPut", "put", "atomic.read",
                                      "-point", "atomicIncrByFloat", "put", "atomic.read"]}
 
